@@ -71,9 +71,9 @@ def mappings_impl(ctx):
     bs = maximal(dedupe(beh.behaviours))
     rnd = random.Random(ctx.seed)
     rnd.shuffle(bs)
-    take = bs[: (6000 if th else 600)]
+    take = bs[: (3000 if th else 600)]
     res, out, rc = ctx.go_test("internal/pcache", "TestVerifC21Mappings", inp=take,
-                               env={"VERIF_NRANDOM": 6000 if th else 400}, timeout=1200)
+                               env={"VERIF_NRANDOM": 2500 if th else 400, "VERIF_NCONCURRENT": 150 if th else 20}, timeout=1200)
     res = ctx.need_result(res, out, rc, "TestVerifC21Mappings")
     c = res.get("consts", {})
     if c.get("elementSizeMem_a") != 33 or c.get("elementSizeMem_8") != 42:
@@ -102,7 +102,8 @@ def mappings_impl(ctx):
                 ctx.ev.set("mappings_mechanism_deviation", str(where)[:300])
         ntr = 0
     ctx.ev.add_impl("MappingsCache executions accepted by PersistCacheMappingsTrace", ntr, steps=res["steps"],
-                    from_tlc_behaviours=len(take), random=res["replayed"] - len(take))
+                    from_tlc_behaviours=len(take), random=res["replayed"] - len(take) - res.get("counters", {}).get("concurrent_runs", 0),
+                    concurrent=res.get("counters", {}).get("concurrent_runs", 0))
     for s in res.get("samples", [])[:3]:
         ctx.ev.sample(s)
 
@@ -137,7 +138,7 @@ def chunks_replay(ctx, behs, mode, stage, **kw):
     th = ctx.thorough
     res, out, rc = ctx.go_test("internal/data_model", "TestVerifC21Chunks", inp=behs,
                                env={"VERIF_HALF": CHUNK_CONSTS["Half"], "VERIF_MODE": mode,
-                                    "VERIF_VARIANTS_REAL": 5 if th else 2, "VERIF_VARIANTS_SMALL": 128 if th else 10,
+                                    "VERIF_VARIANTS_REAL": 3 if th else 2, "VERIF_VARIANTS_SMALL": 128 if th else 10,
                                     "VERIF_FILE_EVERY": 5 if th else 0}, timeout=2400)
     res = ctx.need_result(res, out, rc, "TestVerifC21Chunks " + mode)
     c = res.get("consts", {})
@@ -159,18 +160,26 @@ def chunks_replay(ctx, behs, mode, stage, **kw):
 def chunks_impl(ctx):
     th = ctx.thorough
     rnd = random.Random(ctx.seed + 21)
-    behs = sim_behaviours(ctx, "PersistCacheChunks_sim.cfg", 2500 if th else 200, 3 if th else 1, rnd,
+    behs = sim_behaviours(ctx, "PersistCacheChunks_sim.cfg", 1200 if th else 200, 3 if th else 1, rnd,
                           "chunks: simulated long behaviours (real flush threshold)")
     nsim = len(behs)
+    # directed: save two chunks, close, then everything within 8 more operations (rewrite, crash inside
+    # the rewrite, append, reload) - where the chaining of the hash matters
+    dr = ctx.tlc("PersistCacheChunksMC", "PersistCacheChunks_dir.cfg", timeout=900,
+                 name="chunks: directed behaviours after a two-chunk save")
+    ctx.require_model_ok(dr, "chunks directed export")
+    directed = [b for b in maximal(dedupe(dr.behaviours)) if any(s["a"] == "Read" for s in b)]
+    behs += directed
     if th:
         ex = ctx.tlc("PersistCacheChunksMC", "PersistCacheChunks_beh.cfg", timeout=1500,
                      name="chunks: exhaustive short behaviours")
         ctx.require_model_ok(ex, "chunks behaviour export")
         short = [b for b in maximal(dedupe(ex.behaviours)) if any(s["a"] == "Read" for s in b)]
         rnd.shuffle(short)
-        behs += short[:12000]
-    chunks_replay(ctx, behs, "real", "chunks-real-unit", simulated=nsim, exhaustive_short=len(behs) - nsim)
-    small = sim_behaviours(ctx, "PersistCacheChunks_sim_small.cfg", 1500 if th else 150, 3 if th else 1, rnd,
+        behs += short[:6000]
+    chunks_replay(ctx, behs, "real", "chunks-real-unit", simulated=nsim, directed=len(directed),
+                  exhaustive_short=len(behs) - nsim - len(directed))
+    small = sim_behaviours(ctx, "PersistCacheChunks_sim_small.cfg", 600 if th else 150, 2 if th else 1, rnd,
                            "chunks: simulated long behaviours (small items, one chunk per save)")
     chunks_replay(ctx, small, "small", "chunks-small-unit", simulated=len(small))
 
@@ -189,5 +198,5 @@ def run(ctx):
         mappings_impl(ctx)
     ctx.ev.set("exhaustive", True)
     ctx.ev.assume("xxh3-128 is treated as collision free (a corrupted chunk never keeps its hash)")
-    ctx.ev.assume("MappingsCache is driven single-threaded; timestamps stay far below 2^32")
+    ctx.ev.assume("MappingsCache operation sequences are driven single-threaded (the concurrent runs - getters racing with one modifier - are judged only by the values returned and the accounting after the join); timestamps stay far below 2^32")
     ctx.ev.assume("mapping save files of the harness fit one chunk (strings < 1 KB); multi-chunk files are covered by the ChunkedStorage2 half")
